@@ -1,25 +1,30 @@
 import SignaloModel.Proofs.BridgeSimple
 import SignaloModel.Proofs.DiffIntVarProofs
+import SignaloModel.Proofs.RegDiffInt
 /-!
 # C15 — Differentiate = first difference, integrate = running sum, mutually inverse
 
-Property theorems for C15 (statements are printed by `#check`, axioms by `#check @Registry.diff_spec
+The property theorems for C15: `#check` prints each statement, `#print axioms` its axioms;
+`bin/check C15` re-elaborates this file on every run and audits the axiom lists.
+-/
+open SignaloModel
+
+#check @Registry.differentiate_integrate_registry
+#check @Registry.integrate_differentiate_registry
+#check @Registry.diff_spec
 #check @Registry.diff_state
 #check @Registry.int_state
 #check @Registry.differentiate_registry_correct
 #check @Registry.integrate_registry_correct
-#print axioms`;
-`bin/check C15` re-elaborates this file on every run and audits the axiom lists).
--/
-open SignaloModel
-
 #check @DIV.int_diff
 #check @DIV.diff_int
 
-#print axioms DIV.int_diff
-#print axioms DIV.diff_int
+#print axioms Registry.differentiate_integrate_registry
+#print axioms Registry.integrate_differentiate_registry
 #print axioms Registry.diff_spec
 #print axioms Registry.diff_state
 #print axioms Registry.int_state
 #print axioms Registry.differentiate_registry_correct
 #print axioms Registry.integrate_registry_correct
+#print axioms DIV.int_diff
+#print axioms DIV.diff_int
